@@ -192,24 +192,40 @@ theorem wake_spec {P : Par} {s : S} (hG : Good P s) {u : Nat} (hu : u < P.L.n) {
 
 /-! ### `_set_waiting_for_part`, notifications -/
 
-@[simp] theorem waitS_evs (s : S) (j : Nat) : (waitS s j).evs = s.evs := by unfold waitS; split <;> rfl
-@[simp] theorem waitS_recs (s : S) (j : Nat) : (waitS s j).recs = s.recs := by unfold waitS; split <;> rfl
-@[simp] theorem waitS_parts (s : S) (j : Nat) : (waitS s j).parts = s.parts := by unfold waitS; split <;> rfl
+@[simp] theorem waitS_evs (s : S) (j : Nat) : (waitS s j).evs = s.evs := by
+  unfold waitS waitS0
+  split
+  · split <;> rfl
+  · rfl
+@[simp] theorem waitS_recs (s : S) (j : Nat) : (waitS s j).recs = s.recs := by
+  unfold waitS waitS0
+  split
+  · split <;> rfl
+  · rfl
+@[simp] theorem waitS_parts (s : S) (j : Nat) : (waitS s j).parts = s.parts := by
+  unfold waitS waitS0
+  split
+  · split <;> rfl
+  · rfl
 
 theorem dyn_waitS (s : S) (j i : Nat) (hj : j < s.ds.length) : dyn (dv (waitS s j) i) = dyn (dv s i) := by
-  unfold waitS
+  unfold waitS waitS0
   split
-  · rfl
-  · rw [dv_setD _ _ _ _ hj]
-    split
-    · next h => subst h; rfl
+  · split
     · rfl
+    · rw [dv_setD _ _ _ _ hj]
+      split
+      · next h => subst h; rfl
+      · rfl
+  · rfl
 
 theorem dv_waitS_ne (s : S) (j i : Nat) (h : i ≠ j) : dv (waitS s j) i = dv s i := by
-  unfold waitS
+  unfold waitS waitS0
   split
+  · split
+    · rfl
+    · exact dv_setD_ne _ _ _ _ h
   · rfl
-  · exact dv_setD_ne _ _ _ _ h
 
 theorem notifyS_zero (P : Par) (s : S) (h : (dv s 0).kind ≠ .buffer) : notifyS P s 0 = waitS s 0 := by
   unfold notifyS
